@@ -133,7 +133,8 @@ class Ctx:
                 sums += open(p).read()
         open(os.path.join(hdir, "go.sum"), "w").write(sums)
         drv = os.path.join(self.scratch, "drv")
-        p = subprocess.run(["go", "build", "-tags", "verif", "-o", drv, "./cmd/drv"], cwd=hdir, env=env,
+        cover = ["-cover", "-coverpkg=github.com/TeaEntityLab/fpGo/v2/..."] if os.environ.get("VERIF_COVER") else []
+        p = subprocess.run(["go", "build", "-tags", "verif"] + cover + ["-o", drv, "./cmd/drv"], cwd=hdir, env=env,
                            stdout=subprocess.PIPE, stderr=subprocess.STDOUT, text=True, timeout=600)
         if p.returncode != 0:
             log(p.stdout)
@@ -145,6 +146,8 @@ class Ctx:
         drv = self.build_harness()
         env = self.goenv()
         env["VERIF_SEED"] = str(self.seed)
+        if os.environ.get("VERIF_COVER"):
+            env["GOCOVERDIR"] = os.environ["VERIF_COVER"]       # API coverage audit (bin/apicover), not part of any verdict
         if env_extra:
             env.update(env_extra)
         try:
